@@ -1,1 +1,255 @@
-//! shared helpers for the C-API worker
+//! shared helpers for the C-API workers (C19): the storm-ffi source of the current tree compiled into this
+//! crate, canary / exact-size caller buffers, fixture archives, name pools.
+
+use std::alloc::{Layout, alloc, dealloc};
+use std::path::{Path, PathBuf};
+use wow_mpq::{ArchiveBuilder, AttributesOption, FormatVersion, ListfileOption};
+
+/// The real source file of the tree under test (storm-ffi only builds as cdylib/staticlib, see DESIGN.md §5).
+#[allow(
+    non_snake_case,
+    non_camel_case_types,
+    dead_code,
+    unused_imports,
+    clippy::all,
+    unsafe_op_in_unsafe_fn,
+    unexpected_cfgs
+)]
+#[path = "/repo/ffi/storm-ffi/src/lib.rs"]
+pub mod storm;
+
+// ------------------------------------------------------------------ caller buffers ----
+
+pub const CANARY: usize = 64;
+const CANARY_BYTE: u8 = 0xC9;
+pub const FILL_BYTE: u8 = 0xA5;
+
+/// A caller buffer of exactly `len` bytes, 8-byte aligned.
+/// canary mode: [64 canary bytes][len payload][64 canary bytes] in one allocation; `damage()` reports writes outside.
+/// exact mode (sanitizer / Miri runs): an allocation of exactly `len` bytes so the tool's own red zones see an overrun;
+/// len == 0 gives a dangling, aligned, non-null pointer.
+pub struct Guarded {
+    base: *mut u8,
+    layout: Option<Layout>,
+    pub len: usize,
+    exact: bool,
+}
+
+impl Guarded {
+    pub fn new(len: usize, exact: bool) -> Guarded {
+        unsafe {
+            if exact {
+                if len == 0 {
+                    return Guarded { base: std::ptr::NonNull::<u64>::dangling().as_ptr() as *mut u8, layout: None, len, exact };
+                }
+                let layout = Layout::from_size_align(len, 8).unwrap();
+                let base = alloc(layout);
+                assert!(!base.is_null());
+                std::ptr::write_bytes(base, FILL_BYTE, len);
+                Guarded { base, layout: Some(layout), len, exact }
+            } else {
+                let layout = Layout::from_size_align(len + 2 * CANARY, 8).unwrap();
+                let base = alloc(layout);
+                assert!(!base.is_null());
+                std::ptr::write_bytes(base, CANARY_BYTE, CANARY);
+                std::ptr::write_bytes(base.add(CANARY), FILL_BYTE, len);
+                std::ptr::write_bytes(base.add(CANARY + len), CANARY_BYTE, CANARY);
+                Guarded { base, layout: Some(layout), len, exact }
+            }
+        }
+    }
+    pub fn ptr(&self) -> *mut u8 {
+        if self.exact { self.base } else { unsafe { self.base.add(CANARY) } }
+    }
+    pub fn bytes(&self) -> &[u8] {
+        if self.len == 0 { &[] } else { unsafe { std::slice::from_raw_parts(self.ptr(), self.len) } }
+    }
+    /// (bytes damaged before the buffer, bytes damaged after it); always (0,0) in exact mode.
+    pub fn damage(&self) -> (usize, usize) {
+        if self.exact {
+            return (0, 0);
+        }
+        unsafe {
+            let front = std::slice::from_raw_parts(self.base, CANARY);
+            let back = std::slice::from_raw_parts(self.base.add(CANARY + self.len), CANARY);
+            (front.iter().filter(|b| **b != CANARY_BYTE).count(), back.iter().filter(|b| **b != CANARY_BYTE).count())
+        }
+    }
+}
+
+impl Drop for Guarded {
+    fn drop(&mut self) {
+        if let Some(l) = self.layout {
+            unsafe { dealloc(self.base, l) }
+        }
+    }
+}
+
+// ------------------------------------------------------------------ fixtures ----
+
+#[derive(Clone, Debug)]
+pub struct Fixture {
+    pub file: &'static str,
+    pub listfile: bool,
+    pub names: Vec<String>,
+}
+
+pub fn long_name() -> String {
+    // 300 characters, the last backslash beyond position 259 (MAX_PATH)
+    let mut s = String::from("long\\");
+    while s.len() < 280 {
+        s.push_str("abcdefghij");
+    }
+    s.truncate(280);
+    s.push('\\');
+    while s.len() < 296 {
+        s.push('z');
+    }
+    s.push_str(".bin");
+    s
+}
+
+/// Deterministic content in which every 8-byte window identifies its offset (little-endian u32 counters xor a tag).
+pub fn counter_content(len: usize, tag: u32) -> Vec<u8> {
+    let mut v = Vec::with_capacity(len + 4);
+    let mut i: u32 = 0;
+    while v.len() < len {
+        v.extend_from_slice(&(i.wrapping_mul(0x9E37_79B1) ^ tag).to_le_bytes());
+        i += 1;
+    }
+    v.truncate(len);
+    v
+}
+
+fn mixed_content(len: usize, tag: u32) -> Vec<u8> {
+    // compressible head, counter tail
+    let mut v = vec![b'A' + (tag % 7) as u8; len / 3];
+    v.extend(counter_content(len - len / 3, tag));
+    v
+}
+
+pub const FX_A: &str = "a_v1_list.mpq";
+pub const FX_B: &str = "b_v2_attr.mpq";
+pub const FX_C: &str = "c_v1_nolist.mpq";
+pub const FX_D: &str = "d_tiny_raw.mpq";
+pub const FX_E: &str = "e_empty.mpq";
+pub const FX_F: &str = "f_v4.mpq";
+pub const FX_S: &str = "s_shared.mpq";
+
+pub fn fixture_table() -> Vec<Fixture> {
+    let s = |v: &[&str]| v.iter().map(|x| x.to_string()).collect::<Vec<_>>();
+    vec![
+        Fixture { file: FX_A, listfile: true, names: {
+            let mut n = s(&["empty.bin", "one.bin", "dir\\five.txt", "Dir\\Sub\\Sector-1.dat", "dir\\sub\\sector.dat", "dir\\sub\\sector+1.dat", "Big\\Twenty.K", "UPPER.TXT"]);
+            n.push(long_name());
+            n
+        } },
+        Fixture { file: FX_B, listfile: true, names: s(&["readme.txt", "data\\table.dbc", "data\\zero.bin", "x"]) },
+        Fixture { file: FX_C, listfile: false, names: s(&["hidden\\one.dat", "hidden\\two.dat", "plain.txt"]) },
+        Fixture { file: FX_D, listfile: true, names: s(&["t.txt", "d\\u.bin"]) },
+        Fixture { file: FX_E, listfile: true, names: vec![] },
+        Fixture { file: FX_F, listfile: true, names: s(&["v4\\alpha.bin", "v4\\beta.bin", "gamma"]) },
+        Fixture { file: FX_S, listfile: true, names: s(&["shared\\big.dat", "shared\\mid.dat", "shared\\small.dat", "p0.dat", "p1.dat", "p2.dat", "p3.dat"]) },
+    ]
+}
+
+/// Size of fixture file `k` of archive `fx` (a function of position only, so that every run sees the same archives).
+fn fixture_len(fx: &str, k: usize) -> usize {
+    match fx {
+        FX_A => [0usize, 1, 5, 4095, 4096, 4097, 20000, 300, 777][k % 9],
+        FX_B => [1200usize, 9000, 0, 33][k % 4],
+        FX_C => [10usize, 5000, 64][k % 3],
+        FX_D => [40usize, 9][k % 2],
+        FX_F => [100usize, 6000, 3][k % 3],
+        FX_S => [40000usize, 4000, 96, 1000, 1001, 1002, 1003][k % 7],
+        _ => 0,
+    }
+}
+
+pub fn fixture_content(fx: &str, k: usize) -> Vec<u8> {
+    let len = fixture_len(fx, k);
+    let tag = (fx.as_bytes()[0] as u32) << 8 | k as u32;
+    if fx == FX_S || fx == FX_D { counter_content(len, tag) } else { mixed_content(len, tag) }
+}
+
+/// Build all fixture archives into `dir` with the library's own builder (configurations covered by C01).
+pub fn build_fixtures(dir: &Path) -> Result<(), String> {
+    std::fs::create_dir_all(dir).map_err(|e| e.to_string())?;
+    for fx in fixture_table() {
+        let mut b = ArchiveBuilder::new();
+        b = match fx.file {
+            FX_A => b.version(FormatVersion::V1).default_compression(0x02).attributes_option(AttributesOption::None),
+            FX_B => b.version(FormatVersion::V2).default_compression(0x02).attributes_option(AttributesOption::GenerateFull),
+            FX_C => b.version(FormatVersion::V1).default_compression(0x02).attributes_option(AttributesOption::None),
+            FX_D => b.version(FormatVersion::V1).default_compression(0).attributes_option(AttributesOption::None),
+            FX_E => b.version(FormatVersion::V2).attributes_option(AttributesOption::None),
+            FX_F => b.version(FormatVersion::V4).default_compression(0x02).attributes_option(AttributesOption::None),
+            _ => b.version(FormatVersion::V1).default_compression(0).attributes_option(AttributesOption::None),
+        };
+        b = b.listfile_option(if fx.listfile { ListfileOption::Generate } else { ListfileOption::None });
+        for (k, n) in fx.names.iter().enumerate() {
+            b = b.add_file_data(fixture_content(fx.file, k), n);
+        }
+        b.build(dir.join(fx.file)).map_err(|e| format!("fixture {}: {e}", fx.file))?;
+    }
+    // non-archives
+    std::fs::write(dir.join("not_an_archive.txt"), b"just text\n").map_err(|e| e.to_string())?;
+    std::fs::write(dir.join("zero_len.mpq"), b"").map_err(|e| e.to_string())?;
+    std::fs::write(dir.join("noise.bin"), counter_content(4096, 0x5151)).map_err(|e| e.to_string())?;
+    // source files for SFileAddFile
+    for (k, len) in SRC_LENS.iter().enumerate() {
+        std::fs::write(dir.join(format!("src{k}.dat")), counter_content(*len, 0x7700 + k as u32)).map_err(|e| e.to_string())?;
+    }
+    Ok(())
+}
+
+pub const SRC_LENS: &[usize] = &[0, 1, 100, 5000, 70000];
+pub const NON_ARCHIVES: &[&str] = &["not_an_archive.txt", "zero_len.mpq", "noise.bin"];
+
+/// Copy every regular file of `from` into `to` (each case works on private copies).
+pub fn copy_dir(from: &Path, to: &Path) -> Result<(), String> {
+    std::fs::create_dir_all(to).map_err(|e| e.to_string())?;
+    for e in std::fs::read_dir(from).map_err(|e| e.to_string())? {
+        let e = e.map_err(|e| e.to_string())?;
+        if e.path().is_file() {
+            std::fs::copy(e.path(), to.join(e.file_name())).map_err(|e| e.to_string())?;
+        }
+    }
+    Ok(())
+}
+
+pub fn p2s(p: &PathBuf) -> String {
+    p.to_string_lossy().into_owned()
+}
+
+/// Restart this worker at case `next` (same arguments) and end the way the child ends (exit code, or the same
+/// fatal signal). Used after a case in which a library call never returned: the stuck thread still owns a
+/// handle-table lock, so this process cannot go on.
+pub fn restart_from(next: u64) -> ! {
+    use std::os::unix::process::ExitStatusExt;
+    let exe = std::env::current_exe().expect("current_exe");
+    let mut args: Vec<String> = std::env::args().skip(1).collect();
+    let mut had_start = false;
+    for i in 0..args.len() {
+        if args[i] == "--start" && i + 1 < args.len() {
+            args[i + 1] = next.to_string();
+            had_start = true;
+        }
+    }
+    if !had_start {
+        args.push("--start".into());
+        args.push(next.to_string());
+    }
+    match std::process::Command::new(exe).args(&args).status() {
+        Ok(st) => {
+            if let Some(sig) = st.signal() {
+                unsafe {
+                    libc::signal(sig, libc::SIG_DFL);
+                    libc::raise(sig);
+                }
+            }
+            std::process::exit(st.code().unwrap_or(3))
+        }
+        Err(_) => std::process::exit(3),
+    }
+}
